@@ -5,7 +5,24 @@
 //!          max/ctx: integer, or (hi lo) = hi * 2^32 + lo for values >= 2^62
 //!          clusters: the real CharString segmentation of the text; probes: ((a b) ...)
 //! output = (windows cs probes pcs pbs)   -- see C16_Model.v; pbs (possible_byte_substrings) see C16_MachinePbs.v
+//!
+//! Second kind of input (first field 10): the INFERENCE LOADER (src/data/mod.rs: inference_pipeline,
+//! InferenceLoader::new, __next__, InferenceItem / InferenceBatch accessors), driven through the hook
+//! data::verif_hooks::inference_loader_batches; model: Inference_Model.v
+//! input  = (10 tok (ign kind max ctx g) (threads buffer limit ty prefetch sort) texts)
+//!          tok = (0 <the ten C01 fields>) byte / character tokenizer | (1 tbl maxv toks prefix suffix) BPE
+//!          texts = ((1 code-points) | (0)) ...       (0): the text iterator returns Err("E<position>")
+//! output = (0) constructor error | (1 batches end extra)   -- see Inference_Model.v
+#[path = "../bpe_common.rs"]
+mod bpe;
+#[path = "../tok_common.rs"]
+mod tokc;
+use text_utils::data::loading::BatchLimitType;
+use text_utils::data::verif_hooks::{inference_loader_batches, InferenceLoaderArgs};
 use text_utils::text::{possible_byte_substrings, possible_character_substrings};
+use text_utils::tokenization::{
+    BPETokenizerConfig, CharTokenizerConfig, GroupAggregation, SpecialConfig, TokenizeConfig, TokenizerConfig,
+};
 use text_utils::unicode::CharString;
 use text_utils::windows::{byte, char, windows, Window, WindowConfig};
 use vh::*;
@@ -13,6 +30,8 @@ use vh::*;
 struct C16 {
     /// this binary panics on integer overflow (debug profile) / wraps (release profile)
     checked: bool,
+    /// the regular alphabet of the real character tokenizer (inference stream)
+    alpha: Vec<char>,
 }
 
 const ONE: &[&str] = &["a", "b", "c", " "];
@@ -446,8 +465,428 @@ fn gen_scale(rng: &mut Rng, kind: usize, g: bool) -> (String, usize, usize) {
     }
 }
 
+
+// ---------------------------------------------------------------------------------------------
+// the inference loader stream
+
+const INF_DIR: &str = "/tmp/c16-inf";
+const BPE_SPECIALS: &[&str] = &["<pad>", "<bos>", "<eos>", "<unk>", "<x>", "[SEP]"];
+
+fn strs_of(v: &Val) -> Option<Vec<String>> {
+    v.as_l()?.iter().map(|s| s.to_string_lossy()).collect()
+}
+
+/// a BPE configuration as in C02: (tbl maxv toks prefix suffix)
+fn gen_bpe_cfg(rng: &mut Rng) -> (Vec<Val>, bpe::Table, Vec<&'static str>) {
+    let (table, alpha) = bpe::gen_table(rng);
+    let mut toks: Vec<&str> = vec!["<pad>"];
+    for _ in 0..rng.below(4) {
+        toks.push(*rng.pick(BPE_SPECIALS));
+    }
+    if rng.chance(1, 40) {
+        toks.clear(); // constructor error
+    } else if rng.chance(1, 4) {
+        rng.shuffle(&mut toks);
+    }
+    let pick_some = |rng: &mut Rng, toks: &[&str]| -> Vec<String> {
+        let mut v = vec![];
+        if toks.is_empty() {
+            return v;
+        }
+        let n = match rng.below(6) {
+            0..=2 => 0,
+            3..=4 => 1,
+            _ => 2,
+        };
+        for _ in 0..n {
+            if rng.chance(1, 30) {
+                v.push("<nope>".to_string()); // constructor error
+            } else {
+                v.push(rng.pick(toks).to_string());
+            }
+        }
+        v
+    };
+    let prefix = pick_some(rng, &toks);
+    let suffix = pick_some(rng, &toks);
+    let maxv = match rng.below(10) {
+        0..=5 => None,
+        6 => Some(rng.below(300)),
+        _ => Some(256 + toks.len() + rng.below(table.len() + 3)),
+    };
+    let cfg = vec![
+        bpe::table_val(&table),
+        Val::opt(maxv, Val::u),
+        Val::list(toks.iter(), |s| Val::str(s)),
+        Val::list(prefix.iter(), |s| Val::str(s)),
+        Val::list(suffix.iter(), |s| Val::str(s)),
+    ];
+    (cfg, table, alpha)
+}
+
+enum InfTok {
+    C01(tokc::TokCfg),
+    Bpe { table: bpe::Table, maxv: Option<usize>, special: SpecialConfig, g: bool },
+}
+
+fn parse_tok(v: &Val) -> Option<InfTok> {
+    let l = v.as_l()?;
+    match l.first()?.as_i()? {
+        0 => {
+            let c = tokc::TokCfg::from_vals(&l[1..])?;
+            if l.len() != 11 || !c.prefix_free() {
+                return None;
+            }
+            // the alphabet field must be the real one (character tokenizer) / empty (byte tokenizer)
+            Some(InfTok::C01(c))
+        }
+        1 => {
+            if l.len() != 6 {
+                return None;
+            }
+            let table = bpe::val_table(&l[1])?;
+            let maxv = match l[2].as_l()? {
+                [] => None,
+                [x] => Some(x.as_usize()?),
+                _ => return None,
+            };
+            let toks = strs_of(&l[3])?;
+            let special = SpecialConfig {
+                pad: toks.first().cloned().unwrap_or_else(|| "<pad>".to_string()),
+                tokens: toks,
+                prefix: strs_of(&l[4])?,
+                suffix: strs_of(&l[5])?,
+            };
+            let g = table.len() % 2 == 1;
+            Some(InfTok::Bpe { table, maxv, special, g })
+        }
+        _ => None,
+    }
+}
+
+/// the end state of the iteration from the message of the error `__next__` returned
+fn end_val(msg: Option<&str>) -> Val {
+    let Some(msg) = msg else { return Val::L(vec![]) };
+    let Some(rest) = msg.strip_prefix("error in inference iterator: ") else {
+        return Val::L(vec![Val::I(9)]);
+    };
+    if let Some(k) = rest.strip_prefix('E').and_then(|k| k.parse::<usize>().ok()) {
+        return Val::L(vec![Val::I(0), Val::u(k)]);
+    }
+    if rest.starts_with("max length must be larger than 2 times the context")
+        || rest.starts_with("max bytes must be larger than 2 times the context")
+    {
+        return Val::L(vec![Val::I(1), Val::I(1), Val::L(vec![])]);
+    }
+    if rest.starts_with("single character in '") {
+        if let Some(info) = wide_info(rest) {
+            return Val::L(vec![Val::I(1), Val::I(2), Val::L(info)]);
+        }
+    }
+    Val::L(vec![Val::I(9)])
+}
+
+fn quad(q: (usize, usize, usize, usize)) -> Val {
+    Val::L(vec![Val::u(q.0), Val::u(q.1), Val::u(q.2), Val::u(q.3)])
+}
+
+fn inf_text(rng: &mut Rng, tok: &InfTok, alpha: &[char], bpe_alpha: &[&'static str]) -> String {
+    match rng.below(10) {
+        0 => String::new(),
+        1..=4 => text(rng),
+        _ => match tok {
+            InfTok::C01(c) => tokc::gen_text(rng, c, 14, alpha),
+            InfTok::Bpe { table, .. } => bpe::gen_text(rng, bpe_alpha, table),
+        },
+    }
+}
+
+fn gen_inference(rng: &mut Rng, alpha: &[char]) -> Val {
+    // tokenizer
+    let (tokv, tok, bpe_alpha): (Val, InfTok, Vec<&'static str>) = match rng.below(20) {
+        0..=8 | 9..=15 => {
+            let is_char = rng.below(16) >= 9;
+            let c = loop {
+                let c = tokc::gen_cfg(rng, is_char);
+                if c.prefix_free() {
+                    break c;
+                }
+            };
+            let mut l = vec![Val::I(0)];
+            l.extend(c.to_vals(alpha));
+            (Val::L(l), InfTok::C01(c), vec![])
+        }
+        _ => {
+            let (cfg, _table, a) = gen_bpe_cfg(rng);
+            let mut l = vec![Val::I(1)];
+            l.extend(cfg);
+            let v = Val::L(l);
+            let t = parse_tok(&v).expect("bpe cfg");
+            (v, t, a)
+        }
+    };
+    let ign = matches!(tok, InfTok::Bpe { .. }) || rng.chance(1, 2);
+    // windows
+    let g = rng.chance(1, 2);
+    let kind = match rng.below(20) {
+        0..=8 => 0,
+        9..=17 => 1,
+        _ => 2,
+    };
+    let (max, ctx) = match rng.below(20) {
+        0..=13 => {
+            let c = rng.below(4);
+            (2 * c + 1 + rng.below(8) + if kind == 1 { 3 * rng.below(4) } else { 0 }, c)
+        }
+        14..=16 => (rng.below(10), rng.below(5)), // often invalid: max <= 2 * ctx
+        17 => {
+            let c = rng.below(4);
+            (2 * c + rng.below(2), c) // the boundary of validity
+        }
+        _ => (20 + rng.below(60), rng.below(8)), // one window per text
+    };
+    // loader
+    let threads = match rng.below(10) {
+        0..=1 => 0,
+        2..=3 => 1,
+        4..=6 => 2,
+        7..=8 => 3,
+        _ => 4,
+    };
+    let buffer = rng.below(5);
+    let padded = rng.chance(1, 2);
+    let limit = if padded { *rng.pick(&[0usize, 1, 4, 8, 12, 16, 24, 40]) } else { rng.below(6) };
+    let prefetch = if rng.chance(1, 8) { 1000 } else { rng.below(5) };
+    let sort = rng.chance(1, 2);
+    // texts
+    let n = match rng.below(12) {
+        0 => 0,
+        1 => 1,
+        _ => rng.range(2, 8),
+    };
+    let mut texts: Vec<Option<String>> =
+        (0..n).map(|_| if rng.chance(1, 14) { None } else { Some(inf_text(rng, &tok, alpha, &bpe_alpha)) }).collect();
+    match rng.below(10) {
+        // an Err in the middle of the list with texts after it
+        0..=2 if n >= 3 => {
+            let k = rng.range(1, n - 2);
+            texts[k] = None;
+        }
+        // several Err entries (as many as there are worker threads, and more)
+        3 if n >= 4 => {
+            for _ in 0..rng.range(2, 4) {
+                let k = rng.below(n);
+                texts[k] = None;
+            }
+        }
+        // a character wider than the byte window (an Err RESULT) followed by an Err text (the two recorded errors)
+        4 if n >= 3 && kind == 1 => {
+            let k = rng.below(n - 1);
+            texts[k] = Some(format!("ab{}c", rng.pick(CLUSTER)));
+            if rng.chance(1, 2) {
+                let j = rng.range(k + 1, n - 1);
+                texts[j] = None;
+            }
+        }
+        _ => {}
+    }
+    Val::L(vec![
+        Val::I(10),
+        tokv,
+        Val::L(vec![Val::b(ign), Val::u(kind), Val::u(max), Val::u(ctx), Val::b(g)]),
+        Val::L(vec![Val::u(threads), Val::u(buffer), Val::u(limit), Val::b(padded), Val::u(prefetch), Val::b(sort)]),
+        Val::list(texts.iter(), |t| match t {
+            Some(s) => Val::L(vec![Val::I(1), Val::str(s)]),
+            None => Val::L(vec![Val::I(0)]),
+        }),
+    ])
+}
+
+fn run_inference(l: &[Val], alpha: &[char]) -> Option<(Val, Vec<String>)> {
+    if l.len() != 5 {
+        return None;
+    }
+    let tok = parse_tok(&l[1])?;
+    if let InfTok::C01(c) = &tok {
+        // the alphabet handed to the model must be the real one
+        let mut want = vec![Val::I(0)];
+        want.extend(c.to_vals(alpha));
+        if Val::L(want) != l[1] {
+            return None;
+        }
+    }
+    let w = l[2].as_l()?;
+    let lo = l[3].as_l()?;
+    if w.len() != 5 || lo.len() != 6 {
+        return None;
+    }
+    let ign = w[0].as_bool()?;
+    let (kind, max, ctx, g) = (w[1].as_usize()?, w[2].as_usize()?, w[3].as_usize()?, w[4].as_bool()?);
+    if kind > 2 || max >= 1 << 20 || ctx >= 1 << 20 {
+        return None;
+    }
+    // the BPE model covers tokenize(_, true) only
+    if matches!(tok, InfTok::Bpe { .. }) && !ign {
+        return None;
+    }
+    let (threads, buffer, limit, padded, prefetch, sort) =
+        (lo[0].as_usize()?, lo[1].as_usize()?, lo[2].as_usize()?, lo[3].as_bool()?, lo[4].as_usize()?, lo[5].as_bool()?);
+    if threads > 8 || buffer > 64 || limit > 4096 || prefetch > 4096 {
+        return None;
+    }
+    let mut texts: Vec<Option<String>> = vec![];
+    for t in l[4].as_l()? {
+        let t = t.as_l()?;
+        match t {
+            [Val::I(0)] => texts.push(None),
+            [Val::I(1), s] => texts.push(Some(s.to_string_lossy()?)),
+            _ => return None,
+        }
+    }
+    if texts.len() > 64 {
+        return None;
+    }
+
+    let mut merge_path = None;
+    let tokenizer = match &tok {
+        InfTok::C01(c) => TokenizerConfig {
+            tokenize: if c.is_char {
+                TokenizeConfig::Character(CharTokenizerConfig { use_graphemes: c.g, unk_token: c.unk.clone() })
+            } else {
+                TokenizeConfig::Byte(c.byte_cfg(GroupAggregation::Mean))
+            },
+            special: c.special(),
+        },
+        InfTok::Bpe { table, maxv, special, g } => {
+            let (path, _mf) = bpe::write_merge_file(INF_DIR, table, None).ok()?;
+            merge_path = Some(path.clone());
+            TokenizerConfig {
+                tokenize: TokenizeConfig::BPE(BPETokenizerConfig { merge_file: path, max_vocab_size: *maxv, use_graphemes: *g }),
+                special: special.clone(),
+            }
+        }
+    };
+    let window = match kind {
+        0 => WindowConfig::Character(max, ctx, g),
+        1 => WindowConfig::Bytes(max, ctx, g),
+        _ => WindowConfig::Full(g),
+    };
+    let args = InferenceLoaderArgs {
+        tokenizer,
+        window,
+        ignore_special_tokens: ign,
+        num_threads: threads as u8,
+        buffer_size: buffer,
+        batch_limit: limit,
+        batch_limit_type: if padded { BatchLimitType::PaddedItemSize } else { BatchLimitType::BatchSize },
+        prefetch_factor: prefetch,
+        sort,
+    };
+    let texts2 = texts.clone();
+    let out = with_timeout(10000, move || {
+        let it = texts2
+            .into_iter()
+            .enumerate()
+            .map(|(k, t)| t.ok_or_else(|| anyhow::anyhow!("E{k}")));
+        match inference_loader_batches(it, args, Some(4096), 2) {
+            Err(_) => Val::L(vec![Val::I(0)]),
+            Ok((batches, end, extra)) => Val::L(vec![
+                Val::I(1),
+                Val::list(batches.iter(), |b| {
+                    Val::L(vec![
+                        Val::u(b.len),
+                        Val::list(b.sizes.iter(), |s| Val::u(*s)),
+                        Val::list(b.token_ids.iter(), |ids| tokc::ids_val(ids)),
+                        Val::list(b.indices.iter(), |(i, k)| Val::L(vec![Val::u(*i), Val::u(*k)])),
+                        Val::list(b.items.iter(), |x| {
+                            Val::L(vec![
+                                tokc::ids_val(&x.token_ids),
+                                Val::u(x.item_idx),
+                                Val::u(x.window_idx),
+                                quad(x.window),
+                                quad(x.byte_window),
+                                Val::u(x.len),
+                                Val::u(x.window_bytes),
+                                Val::u(x.context_bytes),
+                            ])
+                        }),
+                    ])
+                }),
+                end_val(end.as_deref()),
+                Val::list(extra.iter(), |r| match r {
+                    Ok(n) if *n == usize::MAX => Val::L(vec![]),
+                    Ok(n) => Val::L(vec![Val::I(7), Val::u(*n)]),
+                    Err(m) => end_val(Some(m.as_str())),
+                }),
+            ]),
+        }
+    });
+    if let Some(p) = merge_path {
+        let _ = std::fs::remove_file(p);
+    }
+    // a threaded Pipe installs a process-wide panic hook that exits the process; the windows cases of this binary
+    // rely on catching panics (asserts in sub / char_range_to_byte_range): back to a silent hook once the loader is gone
+    let _ = std::panic::take_hook();
+    std::panic::set_hook(Box::new(|_| {}));
+
+    let mut tags = vec!["inf".to_string()];
+    tags.push(match &tok {
+        InfTok::C01(c) if c.is_char => "tok:char".into(),
+        InfTok::C01(_) => "tok:byte".into(),
+        InfTok::Bpe { .. } => "tok:bpe".into(),
+    });
+    tags.push(format!("thr:{threads}"));
+    tags.push(format!("buf:{buffer}"));
+    tags.push(if sort { "sort".into() } else { "plain".into() });
+    tags.push(if padded { "ty:padded".into() } else { "ty:count".into() });
+    tags.push(["wk:char", "wk:byte", "wk:full"][kind].to_string());
+    let first_err = texts.iter().position(|t| t.is_none());
+    if let Some(k) = first_err {
+        tags.push("err-text".into());
+        if texts[k + 1..].iter().any(|t| t.is_some()) {
+            tags.push("err-mid".into());
+        }
+        if texts.iter().filter(|t| t.is_none()).count() >= 2 {
+            tags.push("err-many".into());
+        }
+    }
+    if texts.iter().any(|t| matches!(t, Some(s) if s.is_empty())) {
+        tags.push("empty-text".into());
+    }
+    match out.nth(0).and_then(|x| x.as_i()) {
+        Some(0) => tags.push("ctor-err".into()),
+        Some(1) => {
+            let nb = out.nth(1).and_then(|b| b.as_l()).map(|b| b.len()).unwrap_or(0);
+            let multi = out
+                .nth(1)
+                .and_then(|b| b.as_l())
+                .map(|bs| bs.iter().any(|b| b.nth(3).and_then(|x| x.as_l()).map(|ix| ix.iter().any(|p| p.nth(1).and_then(|k| k.as_usize()).unwrap_or(0) >= 1)).unwrap_or(false)))
+                .unwrap_or(false);
+            match out.nth(2).and_then(|e| e.as_l()).map(|e| e.first().and_then(|c| c.as_i())) {
+                Some(None) => tags.push("end:ok".into()),
+                Some(Some(0)) => tags.push("end:text".into()),
+                Some(Some(1)) => tags.push("end:win".into()),
+                _ => tags.push("end:other".into()),
+            }
+            // non-trivial: at least two batches, a text with several windows, worker threads
+            if nb >= 2 && multi && threads >= 1 {
+                tags.push("nt".into());
+            }
+        }
+        Some(-777) => tags.push("panic".into()),
+        Some(-778) => tags.push("hang".into()),
+        _ => tags.push("other".into()),
+    }
+    Some((out, tags))
+}
+
 impl Prop for C16 {
     fn gen(&mut self, rng: &mut Rng, _tier: Tier, i: usize, _n: usize) -> Val {
+        // one case in six: the inference loader (own generator state, so that the windows stream is what it was)
+        if i % 6 == 5 {
+            let mut r = rng.fork();
+            return gen_inference(&mut r, &self.alpha);
+        }
         let g = rng.chance(1, 2);
         let kind = match rng.below(100) {
             0..=34 => 0,
@@ -675,6 +1114,11 @@ impl Prop for C16 {
 
     fn run(&mut self, inp: &Val) -> Option<(Val, Vec<String>)> {
         let l = inp.as_l()?;
+        if l.first().and_then(|k| k.as_i()) == Some(10) {
+            let (out, mut tags) = run_inference(l, &self.alpha)?;
+            tags.push(if self.checked { "ovf:checked".into() } else { "ovf:wrapping".into() });
+            return Some((out, tags));
+        }
         if l.len() != 6 {
             return None;
         }
@@ -883,6 +1327,10 @@ impl Prop for C16 {
 
     fn canon(&mut self, inp: &Val) -> Option<Val> {
         let l = inp.as_l()?;
+        if l.first().and_then(|k| k.as_i()) == Some(10) {
+            // nothing is derived in an inference case: it is canonical if it parses (run() decides)
+            return Some(inp.clone());
+        }
         if l.len() != 6 {
             return None;
         }
@@ -906,5 +1354,5 @@ impl Prop for C16 {
 }
 
 fn main() {
-    main_loop(C16 { checked: overflow_checked() });
+    main_loop(C16 { checked: overflow_checked(), alpha: tokc::alphabet() });
 }
